@@ -52,7 +52,14 @@ type ConnInst struct {
 	From, To Signal
 	Sources  []int // indices of the pipelines of signal From that list ID as exporter
 	Dests    []int // indices of the pipelines of signal To that list ID as receiver (graph edges)
-	Deliver  []int // subset of Dests that data is delivered to (route_to), == Dests by default
+	// Deliver lists the pipelines one payload is delivered to, with multiplicity and in route order:
+	// == Dests when no route is configured for To; the route's pipelines (a repeated id delivers
+	// twice: the router builds a fan-out over the listed consumers) when the route is well-formed;
+	// empty when the router must refuse the route (RouteErr).
+	Deliver  []int
+	Routing  bool     // a route is configured for signal To
+	Route    []string // the route as written
+	RouteErr bool     // the route is empty or names a pipeline the instance is not connected to
 	Mode     string
 }
 
@@ -120,22 +127,23 @@ func (t *Topology) ConnInstances() []ConnInst {
 				if ci.Mode == "" || from != to {
 					ci.Mode = "convert"
 				}
-				// route_to: ids of the destination signal; none of that signal => everything
-				var routed []int
-				for _, r := range cfgStrings(cfg, "route_to") {
-					if !strings.HasPrefix(r, string(to)) {
-						continue
-					}
-					for _, i := range ci.Dests {
-						if t.Pipelines[i].ID() == r {
-							routed = append(routed, i)
+				ci.Deliver = ci.Dests
+				if route, ok := cfgRoutes(cfg)[string(to)]; ok {
+					ci.Routing, ci.Route, ci.Deliver = true, route, nil
+					ci.RouteErr = len(route) == 0
+					for _, r := range route {
+						found := false
+						for _, i := range ci.Dests {
+							if t.Pipelines[i].ID() == r {
+								ci.Deliver = append(ci.Deliver, i)
+								found = true
+							}
 						}
+						ci.RouteErr = ci.RouteErr || !found
 					}
-				}
-				if len(routed) > 0 {
-					ci.Deliver = routed
-				} else {
-					ci.Deliver = ci.Dests
+					if ci.RouteErr {
+						ci.Deliver = nil
+					}
 				}
 				out = append(out, ci)
 			}
@@ -372,6 +380,11 @@ type Expectation struct {
 	// FailingReachable: tag -> keys of exporters configured with fail:true that a path from the
 	// receiver instance reaches (their errors must come back to the injector).
 	FailingReachable map[string][]string
+	// RouteErrors: DeliveryID(connector instance key, tag, trail of the refused payload) -> multiplicity;
+	// RouteRefusals: tag -> keys of the connector instances that refuse a payload of that injection
+	// (their "cannot route" errors must come back to the injector).
+	RouteErrors   map[string]int
+	RouteRefusals map[string][]string
 }
 
 // maxPaths bounds the enumeration (a generator bug must not hang a check).
@@ -379,7 +392,7 @@ const maxPaths = 20000
 
 // Expect enumerates every path of the (valid, acyclic) configuration.
 func (t *Topology) Expect() *Expectation {
-	ex := &Expectation{Deliveries: map[string]int{}, Visits: map[string]int{}, FailingReachable: map[string][]string{}}
+	ex := &Expectation{Deliveries: map[string]int{}, Visits: map[string]int{}, FailingReachable: map[string][]string{}, RouteErrors: map[string]int{}, RouteRefusals: map[string][]string{}}
 	insts := t.ConnInstances()
 	var walk func(pi int, tag, recv string, steps []Step, trail []string)
 	walk = func(pi int, tag, recv string, steps []Step, trail []string) {
@@ -421,6 +434,13 @@ func (t *Topology) Expect() *Expectation {
 					st.Entry = ConnTrailEntry(id, ci.From, ci.To)
 					tr = append(append([]string(nil), trail...), st.Entry)
 				}
+				if ci.RouteErr {
+					ex.RouteErrors[DeliveryID(ci.Key(), tag, tr)]++
+					if !contains(ex.RouteRefusals[tag], ci.Key()) {
+						ex.RouteRefusals[tag] = append(ex.RouteRefusals[tag], ci.Key())
+					}
+					continue
+				}
 				for _, q := range ci.Deliver {
 					walk(q, tag, recv, append(steps, st), tr)
 				}
@@ -434,6 +454,9 @@ func (t *Topology) Expect() *Expectation {
 		}
 	}
 	for _, l := range ex.FailingReachable {
+		sort.Strings(l)
+	}
+	for _, l := range ex.RouteRefusals {
 		sort.Strings(l)
 	}
 	return ex
